@@ -48,6 +48,10 @@ def _stubs():
 def make(spec):
     if spec["kind"].startswith("stub"):
         w = None if spec.get("weights") is None else np.array(spec["weights"], dtype=float)
+        if w is not None and spec.get("weights_as") == "int" and np.all(w == np.rint(w)):
+            w = w.astype(int)
+        elif w is not None and spec.get("weights_as") == "list":
+            w = [int(v) if float(v).is_integer() else float(v) for v in spec["weights"]]
         f = None if spec.get("filters") is None else [lg.FILTERS[n] for n in spec["filters"]]
         return _stubs()[spec["kind"]](w, f)
     return lg.make_loss(spec)
@@ -72,7 +76,8 @@ def cases(draw, kind):
     min_n = 8 if kind == "msm" else 3
     n = draw(st.integers(min_n, 16))
     if kind.startswith("stub"):
-        spec = {"kind": kind, "weights": draw(lg.weights_spec(d, extreme=True)), "filters": draw(lg.filters_spec(d))}
+        spec = {"kind": kind, "weights": draw(lg.weights_spec(d, extreme=True)), "filters": draw(lg.filters_spec(d)),
+                "weights_as": draw(st.sampled_from(["float", "int", "list"]))}
     else:
         spec = draw(lg.loss_spec(d, n, kind=kind, nonneg_weights=False))
         if kind == "gsl":  # keep the word packing injective here: C07 owns that finding
